@@ -340,6 +340,11 @@ func Zero[T any](p *T) {
 
 var resets []func()
 
+// KeepState suppresses the re-initialisation of shared package-level variables at the start of the next
+// runs: consecutive runs then form one operation history of the process (bounded-exhaustive input
+// enumeration wants that - a result must not depend on earlier calls); exploration by replay needs the reset.
+var KeepState bool
+
 // RegisterReset registers a function restoring the shared package-level variables of one file to
 // their initial values; every controlled run starts by calling all of them (executions must not
 // communicate through process state).
@@ -839,8 +844,10 @@ var suspendNext [2]interface{}
 // `starve` (and, with a trailing "*", its descendants) is only scheduled when nothing else is enabled.
 // The choices taken are recorded in Trace as usual, so the execution can be replayed with Run.
 func RunStarving(prefix []int, starve string, ncpu int, body func()) *Result {
-	for _, f := range resets {
-		f()
+	if !KeepState {
+		for _, f := range resets {
+			f()
+		}
 	}
 	s := &Sched{shared: vclock{}, byGoid: map[int64]*G{}, chans: map[uintptr]*chanState{}, wg: map[interface{}]*wgState{}, locks: map[interface{}]*lockState{}, prefix: prefix, ncpu: ncpu, starve: starve}
 	s.cond = sync.NewCond(&s.mu)
